@@ -61,7 +61,11 @@ func judge(c *vc.Case, prop string, run *Run, ix *Index, timing bool) {
 			if p == prop {
 				c.Violation(fd.Sig, fd.Detail, witnessOf(run, fd))
 			} else {
-				c.Count("findings_of_other_property_"+p, 1)
+				// oracles of the other properties run on every log, but they are only SOUND under their own
+				// property's scenario profile (e.g. C06's promptness clauses assume that no hook delays the
+				// caller's own goroutine); outside it their hits are listed for information, never judged
+				c.Count("hits_of_other_oracles_outside_their_profile_not_judged_"+p, 1)
+				c.Seen("other_oracle_hits_not_judged", p+": "+fd.Sig)
 			}
 		}
 	}
